@@ -19,6 +19,28 @@ from .sym import (Arr, Mat, Obj, DF, Havoc, Opt, TS, TD, SymMap, Unsupported, Py
                   concrete_bool, concrete_int, to_bool, is_z3, fresh_name)
 
 
+def olist_like(v):
+    """a Python list, or an opaque list (a callee's result whose elements the contract does not spell out)"""
+    return isinstance(v, list) or (isinstance(v, Obj) and v.cls == 'list')
+
+
+def olist_concat(a, b):
+    """a + b for lists of which at least one is opaque: the sequence of the parts, in order (lists are values here:
+    the result is a new object; an empty Python list contributes nothing)"""
+    parts = []
+    for v in (a, b):
+        if isinstance(v, list):
+            if v:
+                parts.append(list(v))
+        elif v.has('__parts__'):
+            parts.extend(v.get('__parts__'))
+        else:
+            parts.append(v)
+    if len(parts) == 1 and isinstance(parts[0], Obj):
+        return parts[0]
+    return Obj('list', __parts__=parts)
+
+
 class LoopCheckEnd(Exception):
     """end of the path that checks one symbolic iteration of a loop against its invariant"""
 
@@ -818,6 +840,9 @@ class Interp:
             return
         if isinstance(cur, list) and opname == 'Add' and isinstance(rhs, (list, tuple)):
             cur.extend(rhs)
+            return
+        if opname == 'Add' and olist_like(cur) and olist_like(rhs) and (isinstance(cur, Obj) or isinstance(rhs, Obj)):
+            self.assign(t, olist_concat(cur, rhs), frame)
             return
         if isinstance(t, ast.Subscript) and self.loops:
             # arr[key] += g   inside a symbolic loop: commutative accumulation
@@ -1966,6 +1991,8 @@ class Interp:
             return cvx_binop(opname, a, b)
         if opname == 'MatMult':
             return self.model.matmul(self, a, b)
+        if opname == 'Add' and olist_like(a) and olist_like(b) and (isinstance(a, Obj) or isinstance(b, Obj)):
+            return olist_concat(a, b)
         return self.apply_bin(opname, a, b)
 
     def ev_BoolOp(self, e, frame):
